@@ -73,6 +73,18 @@ func funcName(f *ssa.Function) string {
 		}
 		return shorten(o.FullName())
 	}
+	if par := f.Parent(); par != nil && len(litAlias) > 0 {
+		suffix := f.Name()
+		if k := strings.LastIndex(suffix, "$"); k >= 0 {
+			suffix = suffix[k+1:]
+		}
+		if lit, ok := f.Syntax().(*ast.FuncLit); ok {
+			if a, ok := litAlias[lit]; ok {
+				suffix = a
+			}
+		}
+		return funcName(par) + "$" + suffix
+	}
 	return shorten(f.String())
 }
 
